@@ -63,6 +63,7 @@ func init() {
 	registerExec("hcount", hHcount)
 	registerExec("sum", hSum)
 	registerExec("iter", hIter)
+	registerExec("appv", hAppv)
 	registerExec("blen", hBlen)
 	registerExec("appd", hAppd)
 	registerExec("setd", hSetd)
@@ -627,6 +628,7 @@ func hAppd(st *State, a []string) string {
 		return "err"
 	}
 	el := typeDef(et).Default(nil)
+	el.HashTreeRoot(tree.Hash) // the inserted value is hashed beforehand (C07 premise)
 	switch x := hd.vw.(type) {
 	case *view.BasicListView:
 		return errStr(x.Append(el.(view.BasicView)))
@@ -649,5 +651,22 @@ func hSetd(st *State, a []string) string {
 			return "err"
 		}
 	}
-	return errStr(setElem(hd, i, typeDef(et).Default(nil)))
+	el := typeDef(et).Default(nil)
+	el.HashTreeRoot(tree.Hash)
+	return errStr(setElem(hd, i, el))
+}
+
+// appv <h> <hsrc>: append the view held by handle hsrc (shares its backing)
+func hAppv(st *State, a []string) string {
+	hd := st.h(a[0])
+	src := st.h(a[1])
+	switch x := hd.vw.(type) {
+	case *view.BasicListView:
+		return errStr(x.Append(src.vw.(view.BasicView)))
+	case *view.ComplexListView:
+		return errStr(x.Append(src.vw))
+	case *view.BitListView:
+		return errStr(x.Append(src.vw.(view.BoolView)))
+	}
+	return "err"
 }
